@@ -52,6 +52,18 @@ func c08Enumerate(tier string, seed int64, emit func(string, any)) {
 			emit("program+tail", c08Case{Pre: c03Prelude, Src: p + " " + t, Cfg: on})
 		}
 	}
+	// bodies and programs around the code-size capacity (8192 instructions per segment): an accepted program is well-formed
+	// whatever its size; one that is cut must be rejected as a whole
+	for _, n := range []int{2000, 4090, 4096, 4100, 5000} {
+		long := "1" + strings.Repeat("+1", n)
+		stm := "x = 0; " + strings.Repeat("if x < 1 { x = x + 1 }; ", n/6)
+		for _, src := range []string{
+			long, "func g(){ " + long + " }; g()", "&a = " + long + "; a", "func g(){ if 1 { " + long + " } }; g()", "&a = 1 ? (" + long + ") : 2; a", "func g(){ " + stm + "x }; g()", stm + "x",
+			"func g(){ i = 0; while i < 2 { i = i + 1; " + long + " }; i }; g()", "`{% " + stm + " %}`", "func g(){ `{" + long + "}` }; g()", "func g(){ func h(){ " + long + " }; h() }; g()",
+		} {
+			emit("code-size capacity", c08Case{Src: src, Cfg: on})
+		}
+	}
 	gen.StringsUpTo(gen.TokensCore, 3, func(s string) { emit("tokens<=3", c08Case{Src: s, Cfg: on}) })
 	gen.StringsUpTo(gen.TokensFull, 2, func(s string) { emit("tokens<=2/full", c08Case{Src: s, Cfg: off}) })
 	if thorough {
